@@ -10,6 +10,8 @@ import (
 	"os"
 	"reflect"
 	"strings"
+	"sync"
+	"time"
 
 	"github.com/cosmos/gogoproto/proto"
 
@@ -394,9 +396,15 @@ func run(c *core.C) {
 	}
 
 	cnt := &counters{}
-	// 1. decoders: every byte string up to the bound, every single mutation of the valid inputs
+	// 1. decoders: every byte string up to the bound, every single mutation of the valid inputs.
+	// Decoders are independent and stateless, so they are enumerated by a small pool of workers;
+	// the set of inputs and of reported keys does not depend on the scheduling.
 	maxLen := 2
-	for _, d := range decs {
+	type tally struct{ bytesIn, mutants int }
+	tallies := make([]tally, len(decs))
+	sem := make(chan struct{}, 6)
+	var wg sync.WaitGroup
+	for di, d := range decs {
 		n := maxLen
 		generic := strings.HasPrefix(d.Name, "decode+validate")
 		if generic && c.Quick() {
@@ -408,26 +416,37 @@ func run(c *core.C) {
 		if len(d.Valid) == 0 {
 			c.Broken("decoder %s has no valid input to mutate", d.Name)
 		}
-		k := 0
-		core.Strings(allBytes(), n, func(s string) bool {
-			cnt.bytesIn++
-			k++
-			feed(c, d, []byte(s))
-			return k%8192 != 0 || !c.TimeUp()
-		})
-		for _, v := range d.Edge {
-			cnt.mutants++
-			feed(c, d, v)
-		}
-		for _, v := range d.Valid {
-			feed(c, d, v)
-			core.Mutations(v, func(m core.Mutation) bool {
-				cnt.mutants++
-				feed(c, d, m.Out)
-				return cnt.mutants%1024 != 0 || !c.TimeUp()
-			})
-		}
 		c.Hist("decoder_max_len", fmt.Sprint(n))
+		wg.Add(1)
+		sem <- struct{}{}
+		go func(di int, d decoder, n int) {
+			defer wg.Done()
+			defer func() { <-sem }()
+			tl := &tallies[di]
+			core.Strings(allBytes(), n, func(s string) bool {
+				tl.bytesIn++
+				feed(c, d, []byte(s))
+				return tl.bytesIn%8192 != 0 || !c.TimeUp()
+			})
+			for _, v := range d.Edge {
+				tl.mutants++
+				feed(c, d, v)
+			}
+			for _, v := range d.Valid {
+				feed(c, d, v)
+				core.Mutations(v, func(m core.Mutation) bool {
+					tl.mutants++
+					feed(c, d, m.Out)
+					return tl.mutants%1024 != 0 || !c.TimeUp()
+				})
+			}
+		}(di, d, n)
+	}
+	wg.Wait()
+	phase := map[string]float64{"decoders_s": time.Since(c.Start).Seconds()}
+	for _, tl := range tallies {
+		cnt.bytesIn += tl.bytesIn
+		cnt.mutants += tl.mutants
 	}
 	// 2. structured JSON inputs for the JSON decoders
 	for _, fam := range jsonFamilies() {
@@ -442,6 +461,7 @@ func run(c *core.C) {
 			return cnt.jsonIn%512 != 0 || !c.TimeUp()
 		})
 	}
+	phase["json_s"] = time.Since(c.Start).Seconds() - phase["decoders_s"]
 	// 3. structured messages
 	nMsgs := 0
 	for _, t := range targets {
@@ -463,6 +483,8 @@ func run(c *core.C) {
 	}
 	c.Sample(map[string]any{"decoder": decs[0].Name, "valid_input": string(decs[0].Valid[0])})
 
+	phase["messages_s"] = time.Since(c.Start).Seconds() - phase["decoders_s"] - phase["json_s"]
+	c.Set("phase_seconds_informational", phase)
 	c.Set("targets_validation", len(targets))
 	c.Set("targets_sdk_msgs", nMsgs)
 	c.Set("decoders", len(decs))
